@@ -76,7 +76,12 @@ class C27(Check):
             v.error = e0
             v.lastGood = 0
             trace = []
-            for ev in case["evs"]:
+            swap_at = len(case["evs"]) // 2 if len(case["evs"]) % 3 == 0 else None
+            for k, ev in enumerate(case["evs"]):
+                if k == swap_at:
+                    # the sync group gets a NEW process image with the same content (what a restart of the group does): the valve
+                    # must go on reading and writing the current one
+                    sg.current_data = bytearray(sg.current_data)
                 if ev[0] == "reset":
                     clock[0] = ev[1]
                     v.reset()
@@ -158,7 +163,7 @@ class C27(Check):
 
     def rule(self):
         return ("histories: reset, then 1-14 events (target changes, resets, updates with random switch readings and clock advances "
-                "clustered around the moving time), both safe states, moving times 0..10; non-trivial = the history raises the error at least once")
+                "clustered around the moving time), both safe states, moving times 0..10; in a third of the histories the sync group gets a new process image (same content) half way, as a restart of the group does; non-trivial = the history raises the error at least once")
 
     def distribution(self, cases, observed):
         d = {"updates": 0, "errors_raised": 0, "safe_true": 0}
